@@ -10,7 +10,8 @@ EXPLANATION = (
     '"replica holds something" branches, by the STRICT edge held < peer (equal timestamps are the normal state of synchronised '
     'replicas: listing them would make repair never finish), and on the "holds nothing" branch by the false edge of the purge cut-off '
     'predicate; the pushed pair is the peer\'s key and timestamp; the first result vector is fed only from the peer\'s live entries, the '
-    'second only from its tombstones, and they are returned in that order; diff does not write the set. D1 role routing over six hops: '
+    'second only from its tombstones, they are returned in that order, and every path through diff walks both maps (no fast-path early '
+    'return); diff does not write the set. D1 role routing over six hops: '
     'diff().0 (modifications) reaches only fetch_docs + MultiSet and diff().1 (removals) only Del / MultiDel — through on_diff, '
     'get_keyspace_diff\'s struct fields, repair_members\' arguments, begin_keyspace_sync\'s parameters and the two application tasks (both '
     'lists have the same type, so the compiler accepts any swap). NOT decided: "applying the difference leaves nothing further to fetch" '
